@@ -116,6 +116,35 @@ def is_failure_value(value):
     return isinstance(value, tuple) and len(value) > 0 and all(v is None for v in value)
 
 
+def make_decoy():
+    """A second, healthy, connected object with its own quiet board: whatever happens to the
+    object under test must leave it alone (state must live in the instance)."""
+    decoy = probe_class()()
+    board = EBB3Board(future=True, nickname="Decoy")
+    port = FakePort(board, None, QUIET)
+    decoy.port = port
+    decoy.port_name = "/dev/ttyACM7"
+    decoy.parse_version(board.banner)
+    decoy.name = "Decoy"
+    return decoy, port
+
+
+def decoy_problem(decoy_pair):
+    """None, or a description of how the unrelated object was affected."""
+    decoy, port = decoy_pair
+    if port.write_attempts:
+        return f"an unrelated connected object had {port.write_attempts!r} written to its port"
+    if decoy.err is not None or decoy.name != "Decoy" or decoy.port is not port:
+        return (f"an unrelated connected object changed: err={decoy.err!r} name={decoy.name!r} "
+                f"port kept={decoy.port is port}")
+    ret, exc = call(decoy, "query", ("QM",))
+    if exc is not None or ret != "0,0,0,0" or decoy.err is not None or \
+            port.write_attempts != [b"QM\r"]:
+        return (f"an unrelated healthy object could no longer query its own board: query('QM') "
+                f"-> {ret!r} exc={exc!r} err={decoy.err!r} wrote {port.write_attempts!r}")
+    return None
+
+
 def new_object(chooser=None, profile=QUIET, board=None, connected=True):
     """Fresh probe object.  connected=True injects the state connect() leaves behind."""
     obj = probe_class()()
